@@ -447,7 +447,9 @@ pub fn run(rep: &mut Report) {
                 continue;
             }
             long.push(long_honest_batch_case::<F>(len, big_at, spare));
-            long.push(long_honest_batch_case::<RistrettoPoint>(len, big_at, spare));
+            if len <= 257 || rep.tier.thorough() {
+                long.push(long_honest_batch_case::<RistrettoPoint>(len, big_at, spare));
+            }
         }
     }
     rep.explore("C01", long);
